@@ -8,12 +8,13 @@
      pmem   - permutations of the insertion order of the members / functions / events of a definition
      rord   - the order in which add_references hands out references: reversed, duplicated, rotated
      docs   - documentation attached everywhere / to every other item
-     impl   - built-in generics served by the real impls of aldrin-core instead of hand-built IR
-     combo  - all of these at once
+     impl   - built-in generics and tuples served by the real impls of aldrin-core instead of hand-built IR
+     combo  - the permutations, reference order and docs at once
+     rcombo - combo served by the real impls
               => predicted EQUAL CanonId
      edit   - every single semantic edit site of every definition (schema name, type name, member /
               function / event id or name, required, a referenced type, fallback presence or name,
-              service uuid / version)
+              service uuid / version); redit: the same edits served by the real impls
               => predicted DIFFERENT CanonId iff the edited definition is the root or transitively
                  referenced by it, EQUAL otherwise (the id depends on nothing else)
    With Deep = TRUE the edits are additionally applied on top of the combo presentation.
@@ -208,8 +209,8 @@ Cases(u) ==
                 : i \in (1 .. n) \ {r}}
     \cup {Case(u, r, "rord", <<o>>) : o \in {"rev", "dup", "rot"}}
     \cup {Case(u, r, "docs", <<o>>) : o \in {"all", "alt"}}
-    \cup {Case(u, r, "impl", <<"real">>), Case(u, r, "combo", <<>>)}
-    \cup UNION {{Case(u, r, "edit", e) : e \in EditSites(P, i)} : i \in 1 .. n}
+    \cup {Case(u, r, "impl", <<"real">>), Case(u, r, "combo", <<>>), Case(u, r, "rcombo", <<>>)}
+    \cup UNION {{Case(u, r, op, e) : e \in EditSites(P, i), op \in {"edit", "redit"}} : i \in 1 .. n}
     \cup (IF Deep THEN UNION {{Case(u, r, "cedit", e) : e \in EditSites(P, i)} : i \in 1 .. n} ELSE {})
     : r \in 1 .. n }
 
@@ -225,12 +226,14 @@ PresOf(c) ==
     [] c.op = "docs"  -> [P |-> [P EXCEPT !.docs = c.x[1]], root |-> root]
     [] c.op = "impl"  -> [P |-> [P EXCEPT !.impl = c.x[1]], root |-> root]
     [] c.op = "combo" -> [P |-> Combo(P), root |-> root]
+    [] c.op = "rcombo" -> [P |-> [Combo(P) EXCEPT !.impl = "real"], root |-> root]
     [] c.op = "edit"  -> [P |-> ApplyEdit(P, c.x), root |-> RootAfter(P, root, c.x)]
+    [] c.op = "redit" -> [P |-> [ApplyEdit(P, c.x) EXCEPT !.impl = "real"], root |-> RootAfter(P, root, c.x)]
     [] c.op = "cedit" -> [P |-> Combo(ApplyEdit(P, c.x)), root |-> RootAfter(P, root, c.x)]
 
 BaseOf(c) == Case(c.u, c.r, "base", <<>>)
-IsPerm(c) == c.op \in {"pdefs", "pmem", "rord", "docs", "impl", "combo"}
-IsEdit(c) == c.op \in {"edit", "cedit"}
+IsPerm(c) == c.op \in {"pdefs", "pmem", "rord", "docs", "impl", "combo", "rcombo"}
+IsEdit(c) == c.op \in {"edit", "redit", "cedit"}
 
 AllCases == UNION {Cases(u) : u \in 1 .. NU}
 
